@@ -35,7 +35,15 @@ fn text(structure: &mut Rng, content: &mut Rng, hostile: bool, multiline: bool) 
         }
         lines.push(line(content, hostile));
     }
-    lines.join("\n")
+    // the adversarial variant mixes CRLF and bare LF line ends (same number of lines either way)
+    let mut out = String::new();
+    for (k, l) in lines.iter().enumerate() {
+        if k > 0 {
+            out.push_str(if hostile && content.chance(1, 4) { "\r\n" } else { "\n" });
+        }
+        out.push_str(l);
+    }
+    out
 }
 
 fn fill(c: &mut CmdSpec, st: &mut Rng, ct: &mut Rng, hostile: bool, names_too: bool) {
